@@ -44,9 +44,11 @@ GCC_OK_STANDALONE = ["-c", "-g", "-g3", "-ggdb", "-g1", "-O", "-O0", "-O2", "-O3
                      "-lm", "-L/usr/lib", "-Lbuild", "-UFOO", "-Uold", "-fstack-protector-strong", "-pg", "-coverage"]
 
 
-def scan(args):
-    defines, paths, files = [], [], []
-    dest = {"-D": defines, "-I": paths, "-isystem": paths, "-include": files}
+def scan(args, grouped=False):
+    """grouped=False: -I and -isystem values in one list in command-line order;
+    grouped=True: all -I values (in order) followed by all -isystem values (in order), the order a compiler searches."""
+    defines, paths, spaths, files = [], [], [], []
+    dest = {"-D": defines, "-I": paths, "-isystem": spaths if grouped else paths, "-include": files}
     i = 0
     n = len(args)
     while i < n:
@@ -79,4 +81,4 @@ def scan(args):
             i += 1 + SEPARATE[a]
             continue
         i += 1
-    return defines, paths, files
+    return defines, paths + spaths, files
